@@ -484,8 +484,10 @@ func (q *SendType) inferModality(labelledTypesEnv LabelledTypesEnv, usedLabels m
 		return q.Mode
 	}
 
-	leftUsedLabel := copyMap(usedLabels)
-	leftMode := q.Left.inferModality(labelledTypesEnv, leftUsedLabel)
+	// The labels already looked into are shared between the components: the result is the first mode found in a
+	// left-to-right walk, and a label looked into earlier in that walk cannot contribute an earlier one
+	// (a private copy per component made the walk exponential in chains like T0 = T1 * T1, T1 = T2 * T2, ...)
+	leftMode := q.Left.inferModality(labelledTypesEnv, usedLabels)
 	rightMode := q.Right.inferModality(labelledTypesEnv, usedLabels)
 
 	commonMode := commonMode(leftMode, rightMode)
@@ -506,8 +508,10 @@ func (q *ReceiveType) inferModality(labelledTypesEnv LabelledTypesEnv, usedLabel
 		return q.Mode
 	}
 
-	leftUsedLabel := copyMap(usedLabels)
-	leftMode := q.Left.inferModality(labelledTypesEnv, leftUsedLabel)
+	// The labels already looked into are shared between the components: the result is the first mode found in a
+	// left-to-right walk, and a label looked into earlier in that walk cannot contribute an earlier one
+	// (a private copy per component made the walk exponential in chains like T0 = T1 * T1, T1 = T2 * T2, ...)
+	leftMode := q.Left.inferModality(labelledTypesEnv, usedLabels)
 	rightMode := q.Right.inferModality(labelledTypesEnv, usedLabels)
 
 	commonMode := commonMode(leftMode, rightMode)
@@ -524,8 +528,7 @@ func (q *SelectLabelType) inferModality(labelledTypesEnv LabelledTypesEnv, usedL
 
 	var commonModes []Modality
 	for _, branch := range q.Branches {
-		usedLabelsCopy := copyMap(usedLabels)
-		branchMode := branch.SessionType.inferModality(labelledTypesEnv, usedLabelsCopy)
+		branchMode := branch.SessionType.inferModality(labelledTypesEnv, usedLabels)
 		commonModes = append(commonModes, branchMode)
 	}
 
@@ -543,8 +546,7 @@ func (q *BranchCaseType) inferModality(labelledTypesEnv LabelledTypesEnv, usedLa
 
 	var commonModes []Modality
 	for _, branch := range q.Branches {
-		usedLabelsCopy := copyMap(usedLabels)
-		branchMode := branch.SessionType.inferModality(labelledTypesEnv, usedLabelsCopy)
+		branchMode := branch.SessionType.inferModality(labelledTypesEnv, usedLabels)
 		commonModes = append(commonModes, branchMode)
 	}
 
@@ -672,15 +674,6 @@ func (q *DownType) assignUnsetModalities(labelledTypesEnv LabelledTypesEnv, curr
 }
 
 // Deep copies a map
-func copyMap(orig map[string]bool) map[string]bool {
-	copy := make(map[string]bool)
-	for k, v := range orig {
-		copy[k] = v
-	}
-
-	return copy
-}
-
 // Takes a list of modalities, and returns the first non UnsetMode that there is.
 // If all modes are Unset, then it returns Unset
 func commonMode(modes ...Modality) Modality {
